@@ -206,6 +206,16 @@ func (s *Solver) emit(x *Term) {
 			}
 			body.WriteString(")")
 		}
+	case OpBXor:
+		if len(x.Args) == 1 {
+			body.WriteString(s.ref(x.Args[0]))
+		} else {
+			body.WriteString("(xor")
+			for _, a := range x.Args {
+				body.WriteString(" " + s.ref(a))
+			}
+			body.WriteString(")")
+		}
 	default:
 		body.WriteString("(" + opNames[x.Op])
 		for _, a := range x.Args {
